@@ -27,6 +27,7 @@ Clause(t) ==
      ELSE IF ToSet(t.cols) # TermSet(t.gl, t.poly, t.noff, TRUE) \cup {"ln_prior"} THEN "C09.SampledColumns"
      ELSE IF ~t.insupport THEN "C09.DrawsInsideSupport"
      ELSE IF ~t.constok THEN "C09.LnPriorIsJointLogDensityOfTheRow"
+     ELSE IF ~t.kcondok THEN "C09.KDrawnGivenTheRowsOwnPeriodAndEccentricity"
      ELSE ""
   ELSE "unknown kind"
 Init == tid \in 1..Len(Tr) /\ done = FALSE
